@@ -9,6 +9,7 @@ Import ListNotations.
 From YP Require Import Base.Str Lang.Ast Lang.Lexer Lang.Cst Lang.Parser Lang.ParserSound Lang.Unquote Lang.Front
   Lang.ParserMono Lang.ParserComplete Lang.ParserCanon Lang.ParserFuel Lang.ParserNorm Lang.FrontSpec
   Comp.IR Comp.NumeralName Comp.CompileClause Lang.FrontCompile Lang.QuotedOpaque.
+From YP Require Import Comp.CompileText Cli.Comment Cli.Cli Cli.CliCompile Cli.CliSentence.
 
 (* The scan of every token rule computes exactly the longest prefix in the rule's language
    (rdef_lang is the specification of the four kinds of rule, rule_def the table of prolog.g4). *)
@@ -234,3 +235,36 @@ Proof.
   split; [|repeat split; try (vm_compute; reflexivity); try discriminate; eexists; vm_compute; reflexivity].
   eexists; eexists. vm_compute. repeat split; reflexivity.
 Qed.
+
+(* Round 4.  The command line judges every source text ALONE (model command line Cli/Cli.v over the model compiler
+   compile_text): a run that exits with status 0 has read only sentences of the grammar - each file, standard input -, so
+   a source that ends inside a comment, a quoted atom or a clause is refused even when the beginning of the next source
+   would complete it; one source that is not a sentence makes the run fail, whatever the other sources are. *)
+Theorem C10_cli_sources_are_sentences : forall printable failure trace f outfile srcs fs stdin,
+  status (r_end (yldpc_lib printable failure trace f outfile srcs fs stdin)) = 0%N ->
+  all_exist fs srcs /\
+  Forall (fun r => exists t, r = RText t /\ sentence t) (contents (fs_seen fs outfile) stdin srcs).
+Proof. exact cli_sources_sentences. Qed.
+Print Assumptions C10_cli_sources_are_sentences.
+
+Theorem C10_cli_non_sentence_fails : forall printable failure trace f outfile srcs fs stdin t,
+  In (RText t) (contents (fs_seen fs outfile) stdin srcs) -> ~ sentence t ->
+  status (r_end (yldpc_lib printable failure trace f outfile srcs fs stdin)) <> 0%N.
+Proof. exact cli_non_sentence_fails. Qed.
+Print Assumptions C10_cli_non_sentence_fails.
+
+(* non-vacuity: one sentence cut inside a quoted atom into two sources - the joined text compiles, each piece alone is
+   refused, the run over both has status 1 and writes nothing *)
+Example C10_cli_pieces_refused :
+  let printable := fun _ : N => false in
+  let failure := fun _ : str => CErr 1 0 (d "syntax error") in
+  let trace := fun (dfn : bool) (s t : str) => @nil (chan * str) in
+  let a := d "k(1).\10;p('ab" in
+  let b := d "cd').\10;" in
+  let fs := fun s => if str_eqb s (d "x.pl") then Some (RText a) else
+                     if str_eqb s (d "y.pl") then Some (RText b) else None in
+  let r := yldpc_lib printable failure trace (Flags false false false false) (d "-") [d "x.pl"; d "y.pl"] fs (RText []) in
+  (exists text, compile_text printable (a ++ b)%list = CText text)
+  /\ compile_text printable a = CRejectFront /\ compile_text printable b = CRejectFront
+  /\ status (r_end r) = 1%N /\ output r = [].
+Proof. exact cli_pieces_refused. Qed.
